@@ -28,18 +28,24 @@ let elt_info = function
   | "u32" -> (8, int_of_n local_length_char32)
   | t -> failwith ("element type " ^ t)
 
+(* counts of 2^32 and more (only generated together with an allocation fault on this very step) stand for "a request no
+   allocator grants": the model runs an allocating operation of 4096 elements, armed *)
+let big_count (n : string) : nat =
+  let c = (try int_of_string n with _ -> max_int) in
+  nat_of_int (if c >= 1 lsl 32 || c < 0 then 4096 else c)
+
 let parse_bop width (s : string) : bop =
   match split_on ',' s with
   | ["def"; o] -> BDef (nat_of_int (int_of_string o))
   | ["new"; o; d] -> BNew (nat_of_int (int_of_string o), units_of_hex width d)
   | ["newnull"; o; n] -> BNewNull (nat_of_int (int_of_string o), nat_of_int (int_of_string n))
-  | ["fill"; o; n; c] -> BFill (nat_of_int (int_of_string o), nat_of_int (int_of_string n), n_of_string c)
+  | ["fill"; o; n; c] -> BFill (nat_of_int (int_of_string o), big_count n, n_of_string c)
   | ["copy"; o; s] -> BCopy (nat_of_int (int_of_string o), nat_of_int (int_of_string s))
   | ["move"; o; s] -> BMove (nat_of_int (int_of_string o), nat_of_int (int_of_string s))
   | ["asg"; o; s] -> BAsg (nat_of_int (int_of_string o), nat_of_int (int_of_string s))
   | ["masg"; o; s] -> BMasg (nat_of_int (int_of_string o), nat_of_int (int_of_string s))
-  | ["alloc"; o; n; c] -> BAlloc (nat_of_int (int_of_string o), nat_of_int (int_of_string n), n_of_string c)
-  | ["allocfill"; o; n; c] -> BAllocFill (nat_of_int (int_of_string o), nat_of_int (int_of_string n), n_of_string c)
+  | ["alloc"; o; n; c] -> BAlloc (nat_of_int (int_of_string o), big_count n, n_of_string c)
+  | ["allocfill"; o; n; c] -> BAllocFill (nat_of_int (int_of_string o), big_count n, n_of_string c)
   | ["write"; o; i; v] -> BWrite (nat_of_int (int_of_string o), nat_of_int (int_of_string i), n_of_string v)
   | ["clear"; o] -> BClear (nat_of_int (int_of_string o))
   | ["del"; o] -> BDel (nat_of_int (int_of_string o))
